@@ -77,6 +77,9 @@ def make_case(rng):
             prods = gram.gen_follow_context_candidate(rng, terms)
             if not gram.left_recursion_cycle(prods) and gram.is_ll1(prods, 'E'):
                 break
+    elif r < 0.68 and len(terms) >= 2:
+        kind = "ll1-follow-ring"
+        prods = gram.gen_follow_ring_grammar(rng, terms)
     else:
         kind = "ll1-constructed"
         for _ in range(8):
@@ -189,6 +192,10 @@ def run_case(ctx, mon, cfg_id, terms, prods, inputs_spec=None, rng=None, any_spe
             mon.reset()
             try:
                 lines = text.split("\n")
+                if text == "" and as_lines:
+                    # an empty text given by its lines has no line at all (an empty file, an empty list)
+                    lines = []
+                    ctx.count("empty_texts_given_as_no_line_at_all")
                 # (a text given as lines comes as a list or, every other time, as a one-shot iterator)
                 tree = parser.parse((lines if len(text) % 2 else iter(lines)) if as_lines else text,
                                     do_cleanup=False)
